@@ -667,6 +667,8 @@ class Interp:
                 same = isinstance(l, Sentinel) and isinstance(r, Sentinel) and l.name == r.name
             elif isinstance(r, Const) and r.v is None:
                 same = isinstance(l, Const) and l.v is None if not isinstance(l, (Top, Choice)) else None
+            if same is None and isinstance(l, Fn) and isinstance(r, Fn) and l.kind == "lib" and r.kind == "lib" and str(l.name).startswith("builtins.") and str(r.name).startswith("builtins."):
+                same = l.name == r.name  # two builtin classes (`type(x) is str`)
             if same is None:
                 return Top("identity unknown")
             return Const(same if isinstance(op, ast.Is) else not same)
@@ -1694,6 +1696,8 @@ class Interp:
             # enclosing loop restores the depth when the iteration ends)
             self.cond_depth += 1
         if rets and not falls:
+            if len(rets) > 1 and all(isinstance(r, Const) and type(r.v) is type(rets[0].v) and r.v == rets[0].v and r.v == r.v for r in rets):
+                rets = rets[:1]  # both arms give the same constant
             raise _Return(Choice(rets) if len(rets) > 1 else rets[0])
         if rets and falls:
             # one arm returns, the other continues: remember the early result
@@ -1830,7 +1834,11 @@ class Interp:
             ret = r.v
         early = sc.vars.get("__early_returns__")
         if early is not None and early.elts:
-            ret = Choice(early.elts + [ret])
+            alts = early.elts + [ret]
+            if all(isinstance(r, Const) and type(r.v) is type(alts[0].v) and r.v == alts[0].v and r.v == r.v for r in alts):
+                ret = alts[0]  # every way out gives the same constant
+            else:
+                ret = Choice(alts)
         if is_gen and self._is_generator(fnode):
             return ListLit(yields)
         return ret
